@@ -1,6 +1,7 @@
 //! Correspondence harness: runs the real calloop (built from /repo with --cfg calloop_verif)
 //! on the same case files the extracted Coq model is run on, printing canonical result lines.
 
+mod m_cchan;
 mod m_cping;
 mod m_seq;
 mod m_signals;
@@ -19,6 +20,8 @@ fn main() {
     match args.get(1).map(|s| s.as_str()) {
         Some("token") => m_token::run(),
         Some("cping") => m_cping::run(),
+        Some("cchan") => m_cchan::run(),
+        Some("cchan0") => m_cchan::run0(),
         Some("timing") => m_timing::run(),
         Some("signals") => m_signals::run(),
         Some("transient") => m_transient::run(),
